@@ -1,4 +1,108 @@
+/-
+C09 — property theorems (statements fixed by the architect; do not weaken).
+Helper lemmas: PeroVerif/Lemmas/LogitsStore.lean (incl. Py.Dict lemmas).
+-/
 import PeroVerif.Model.LogitsStore
+import PeroVerif.Lemmas.LogitsStore
+
 namespace C09
-theorem placeholder : (1:Nat) = 1 := rfl
+open LS Py
+variable {L K C : Type}
+
+/-- a line all of whose components are present -/
+def Complete (l : Line L K C) : Prop := (∃ m, l.logits = .mat (some m)) ∧ l.chars.isSome ∧ l.coords.isSome
+
+/-- the property's quantifier: distinct line ids, none equal to a reserved key -/
+def GoodIds (lines : List (Line L K C)) : Prop :=
+  (lines.map (·.id)).Nodup ∧ ∀ l ∈ lines, l.id ≠ kChars ∧ l.id ≠ kCoords
+
+/-- Saving a complete page never fails (with or without the flag). -/
+theorem save_ok (flag : Bool) (lines : List (Line L K C)) (hc : ∀ l ∈ lines, Complete l) :
+    ∃ d, genLogits flag lines = .ok d := by
+  have hfm : firstMissing lines = none := by
+    rw [firstMissing_eq_none_iff]
+    intro l hl
+    obtain ⟨⟨m, hm⟩, h2, h3⟩ := hc l hl
+    exact ⟨by rw [hm]; rfl, h2, h3⟩
+  unfold genLogits
+  cases flag <;> simp [hfm]
+
+/-- Without the flag a missing component is reported instead of being saved silently. -/
+theorem missing_reported (lines : List (Line L K C)) (l : Line L K C) (hl : l ∈ lines)
+    (hm : ¬ Complete l) (hmat : ∀ l' ∈ lines, ∃ m, l'.logits = .mat m) :
+    ∃ e, genLogits false lines = .error e ∧
+      (e = .missingLogits ∨ e = .missingChars ∨ e = .missingCoords) := by
+  have hne : firstMissing lines ≠ none := by
+    intro h0
+    rw [firstMissing_eq_none_iff] at h0
+    obtain ⟨h1, h2, h3⟩ := h0 l hl
+    obtain ⟨m, hlm⟩ := hmat l hl
+    apply hm
+    refine ⟨?_, h2, h3⟩
+    cases m with
+    | none => rw [hlm] at h1; cases h1
+    | some x => exact ⟨x, hlm⟩
+  unfold genLogits
+  rcases firstMissing_cases lines with h | h | h | h
+  · exact absurd h hne
+  all_goals simp [h]
+
+/-- Loading a saved page into a layout with the same line ids restores, for every line, the identical
+logits, character table and frame window — whatever the target lines held before. -/
+theorem load_save_restores (flag : Bool) (legacy : Option C) (src dst : List (Line L K C))
+    (d : Dict Nat (Val L K C)) (hg : GoodIds src) (hs : genLogits flag src = .ok d)
+    (hids : dst.map (·.id) = src.map (·.id)) :
+    load legacy d dst = .ok src := by
+  have hdst : ∀ l ∈ dst, l.id ≠ kChars ∧ l.id ≠ kCoords := by
+    intro l hl
+    have : l.id ∈ src.map (·.id) := hids ▸ List.mem_map.2 ⟨l, hl, rfl⟩
+    obtain ⟨s, hs, e⟩ := List.mem_map.1 this
+    have := hg.2 s hs
+    rw [← e]; exact this
+  rw [load_saved flag legacy src dst d hg.1 hs hdst, map_restore_eq src dst hg.1 hids]
+
+/-- Lines absent from the file are left untouched; lines present get the file's payload (partial
+files: the target may have more or fewer lines than the file). -/
+theorem load_partial (flag : Bool) (legacy : Option C) (src dst : List (Line L K C))
+    (d : Dict Nat (Val L K C)) (hg : GoodIds src) (hs : genLogits flag src = .ok d)
+    (hdst : ∀ l ∈ dst, l.id ≠ kChars ∧ l.id ≠ kCoords) :
+    ∃ out, load legacy d dst = .ok out ∧ out.length = dst.length ∧
+      ∀ i (hi : i < dst.length) (ho : i < out.length),
+        (∀ s ∈ src, s.id = dst[i].id → out[i] = s) ∧
+        ((∀ s ∈ src, s.id ≠ dst[i].id) → out[i] = dst[i]) := by
+  refine ⟨dst.map (restore src), load_saved flag legacy src dst d hg.1 hs hdst, by simp, ?_⟩
+  intro i hi ho
+  simp only [List.getElem_map]
+  exact ⟨fun s hs hid => restore_of_mem src hg.1 _ s hs hid,
+    fun h => restore_of_not_mem src _ h⟩
+
+/-- The two hypotheses of `GoodIds` are necessary (recorded as known findings on the real code):
+a duplicated id gives both lines the last payload; a reserved id yields a dict in place of logits. -/
+theorem duplicate_id_last_wins (a b : L) (k : K) (c : C) :
+    ∃ d, genLogits false
+        [⟨5, .mat (some a), some k, some c⟩, ⟨5, .mat (some b), some k, some c⟩] = .ok d ∧
+      ∀ legacy, load legacy d [⟨5, .mat none, none, none⟩, ⟨5, .mat none, none, none⟩] =
+        .ok [⟨5, .mat (some b), some k, some c⟩, (⟨5, .mat (some b), some k, some c⟩ : Line L K C)] :=
+  ⟨_, rfl, fun _ => rfl⟩
+
+theorem reserved_id_collides (a : L) (k : K) (c : C) :
+    ∃ d, genLogits false [(⟨kChars, .mat (some a), some k, some c⟩ : Line L K C)] = .ok d ∧
+      ∀ legacy out, load legacy d [⟨kChars, .mat none, none, none⟩] = .ok out →
+        ∀ l ∈ out, ∀ m, l.logits ≠ .mat (some m) := by
+  refine ⟨_, rfl, ?_⟩
+  intro legacy out h l hl m
+  have h' : out = [⟨kChars, .charsD [(kChars, some k)], some k, some c⟩] := by
+    have : (Except.ok [⟨kChars, .charsD [(kChars, some k)], some k, some c⟩] :
+        Except Err (List (Line L K C))) = .ok out := h
+    exact (Except.ok.inj this).symm
+  subst h'
+  rw [List.mem_singleton.1 hl]
+  intro e; cases e
+
+/-- Dense reconstruction: every stored logit unchanged, the floor for pruned entries. -/
+theorem dense_stored {S : Type} [DecidableEq S] (zero floor s : S) (h : s ≠ zero) : dense zero floor s = s := by
+  simp [dense, h]
+theorem dense_pruned {S : Type} [DecidableEq S] (zero floor : S) : dense zero floor zero = floor := by
+  simp [dense]
+
 end C09
